@@ -8,6 +8,7 @@ from .exceptions import PreprocessorError, NonPSDError
 from sklearn.discriminant_analysis import LinearDiscriminantAnalysis
 from scipy.linalg import pinvh, eigh
 import inspect
+import numbers
 import sys
 import time
 import warnings
@@ -776,7 +777,8 @@ def _check_n_components(n_features, n_components):
   case"""
   if n_components is None:
     return n_features
-  if 0 < n_components <= n_features:
+  if isinstance(n_components, numbers.Integral) and \
+     0 < n_components <= n_features:
     return n_components
   raise ValueError('Invalid n_components, must be in [1, %d]' % n_features)
 
